@@ -200,16 +200,20 @@ def fold_minimize(ck: Checker, R: str, handmade_only=False):
     for spec, outs in fam:
         inputs = [l for l, t, _ in spec if t == 'INPUT']
         has_equiv = _equivalent_gates(spec)
-        for mode, basis, cut_size, rev in (CONFIGS[1:2] if handmade_only else CONFIGS):
+        n_hand = len(fam) - (0 if handmade_only else (14 if ck.tier == 'quick' else 120))
+        is_hand = fam.index((spec, outs)) < n_hand
+        stored_rev = [x for x in spec if x[1] == 'INPUT'] + [x for x in spec if x[1] != 'INPUT'][::-1]
+        # (a circuit read from a bench text may store a gate before its operands: the hand-made circuits are also run stored users-first)
+        for mode, basis, cut_size, rev, users_first in ([c_ + (False,) for c_ in (CONFIGS[1:2] if handmade_only else CONFIGS)] + ([('search', 'XAIG', 3, False, True)] if is_hand and not handmade_only else [])):
                 if True:
                     n += 1
                     _Finder.mode = mode
                     current['rev'] = rev
-                    c = M.new_circuit(spec, outs)
+                    c = M.new_circuit(stored_rev if users_first else spec, outs)
                     current['c'] = c
                     before_tt = [[state_values(c, dict(zip(inputs, bits)))[o] for bits in itertools.product((False, True), repeat=len(inputs))] for o in outs]
                     size0 = _nontrivial(c)
-                    desc = f'{[(l, t) + tuple(o) for l, t, o in spec if t != "INPUT"]} outputs {list(outs)} (basis {basis}, cuts of <= {cut_size} leaves{", enumerated in reverse" if rev else ""}, synthesiser oracle: {mode})'
+                    desc = f'{[(l, t) + tuple(o) for l, t, o in spec if t != "INPUT"]} outputs {list(outs)} (basis {basis}, cuts of <= {cut_size} leaves{", enumerated in reverse" if rev else ""}, synthesiser oracle: {mode}{", gates stored users-first" if users_first else ""})'
                     it.steps = 0
                     M.den.interp.steps = 0
                     try:
@@ -234,7 +238,7 @@ def fold_minimize(ck: Checker, R: str, handmade_only=False):
                         buckets['interface'].append(f'the result cannot be evaluated on {desc}')
                         continue
                     wrong = after_tt != before_tt
-                    if mode == 'search' and cut_size == 3 and not rev:
+                    if mode == 'search' and cut_size == 3 and not rev and not users_first:
                         # the same run with validation enabled: FailedValidationError exactly when the unvalidated result is wrong
                         c2 = M.new_circuit(spec, outs)
                         current['c'] = c2
